@@ -367,3 +367,88 @@ def run_valuekind(chk, F, rid="R-VALUEKIND", classes=(FC,)):
         ok = bool(cn) and any(c.get("name") == "is_const_integer" for c in calls(cn[0]["body"]))
         chk.ob(rid, "exempt|checkNrOfRuns", ok, "checkNrOfRuns no longer requires a constant integer, but "
                "checkExpression reads expr[0].get_value() after it", "src/typechecker.cpp")
+
+
+# ---------------------------------------------------------------------------------------------- R-STICKYERR
+def run_stickyerr(chk, F, rid="R-STICKYERR"):
+    """The type checker visits the blocks of a document one after the other with one object.  A diagnostic whose
+    innermost guard reads nothing but members of that object (`if (syncUsed == -1) handleError(edge.sync, ..)`) does
+    not depend on the block being visited: once the member has the value, every later block gets the diagnostic - a
+    fault in one label is reported at all labels that follow it.  A guard that involves the visited element (a
+    parameter, or a local computed from one) decides per block."""
+    from ..inline import sites_with_conditions, strip
+    chk.rule(rid, "in every visit function of TypeChecker, the innermost condition guarding a handleError / handleWarning "
+                  "call mentions the visited element (a parameter or a local derived from one), not only members of the "
+                  "checker: state carried from earlier blocks must not decide alone that this block gets a diagnostic")
+    n = 0
+    # members that are state: assigned somewhere outside the constructors (a flag set once at construction, such as
+    # refinementWarnings, is configuration - it says the same thing about every block)
+    state = set()
+    for q, fns in F.by_q.items():
+        if not q.startswith("UTAP::TypeChecker::") or q.split("::")[-1] in ("TypeChecker", "~TypeChecker"):
+            continue
+        for fn in fns:
+            for d in walk(fn.get("body") or {}):
+                tgt = None
+                if d.get("k") == "bin" and d.get("op") in ("=", "+=", "-=", "|=", "&="):
+                    tgt = d["lhs"]
+                elif d.get("k") == "un" and d.get("op") in ("++", "--"):
+                    tgt = d.get("e")
+                elif d.get("k") == "call" and d.get("ck") == "op" and d.get("op") == "=" and d.get("recv") is not None:
+                    tgt = d["recv"]
+                t0 = strip(tgt) if isinstance(tgt, dict) else None
+                if isinstance(t0, dict) and ((t0.get("k") == "member" and strip(t0.get("base") or {"k": "this"}).get("k") == "this")
+                                             or (t0.get("k") == "ref" and t0.get("dk") in ("member", "field"))):
+                    state.add(t0.get("name"))
+    for q, fns in sorted(F.by_q.items()):
+        if not q.startswith("UTAP::TypeChecker::visit"):
+            continue
+        for fn in fns:
+            if fn.get("body") is None or not fn.get("params"):
+                continue
+            tainted = {p_["name"] for p_ in fn["params"]}
+            for _ in range(4):
+                for d in walk(fn["body"]):
+                    if d.get("k") == "decl":
+                        for v in d.get("vars", []):
+                            if v.get("init") is not None and any(x.get("k") == "ref" and x.get("name") in tainted
+                                                                 for x in walk(v["init"])):
+                                tainted.add(v.get("name"))
+                    if d.get("k") == "rangefor" and isinstance(d.get("var"), dict) and \
+                            any(x.get("k") == "ref" and x.get("name") in tainted for x in walk(d.get("range") or {})):
+                        tainted.add(d["var"].get("name"))
+                    if d.get("k") == "bin" and d.get("op") == "=" and strip(d["lhs"]).get("k") == "ref" and \
+                            strip(d["lhs"]).get("dk") == "local" and \
+                            any(x.get("k") == "ref" and x.get("name") in tainted for x in walk(d["rhs"])):
+                        tainted.add(strip(d["lhs"]).get("name"))
+                    if d.get("k") == "call" and isinstance(d.get("recv"), dict) and strip(d["recv"]).get("k") == "ref" and \
+                            strip(d["recv"]).get("dk") == "local" and \
+                            any(x.get("k") == "ref" and x.get("name") in tainted for a in d.get("args", []) for x in walk(a)):
+                        tainted.add(strip(d["recv"]).get("name"))       # decomposer.decompose(inv)
+
+            def is_report(x):
+                return x.get("k") == "call" and x.get("name") in ("handleError", "handleWarning")
+            seen = {}
+            for site, conds in sites_with_conditions(fn["body"], is_report):
+                if not conds:
+                    continue
+                n += 1
+                c, t = conds[-1]
+                refs = [x for x in walk(c) if x.get("k") in ("ref", "member")]
+                about_block = any(x.get("k") == "ref" and x.get("name") in tainted for x in refs)
+                members = sorted({x.get("name") for x in refs if x.get("k") == "member" and
+                                  strip(x.get("base") or {"k": "this"}).get("k") == "this"} |
+                                 {x.get("name") for x in refs if x.get("k") == "ref" and x.get("dk") in ("member", "field")})
+                msg = next((y.get("v") for a in site.get("args", []) for y in walk(a) if y.get("k") == "str"), "?")
+                key = "%s|%s" % (fn["name"], msg)
+                seen[key] = seen.get(key, 0) + 1
+                members = [m_ for m_ in members if m_ in state]
+                ok = about_block or not members
+                chk.ob(rid, key if seen[key] == 1 else "%s#%d" % (key, seen[key]), ok,
+                       "%s reports `%s` under `%s`, which reads only the checker's own %s - nothing of the element being "
+                       "visited: once that state is reached, every later element gets the diagnostic (a fault in one label "
+                       "is reported at the labels that follow it)" % (fn["q"], msg, short(c)[:60], "/".join(members)),
+                       "%s:%s" % (fn["file"], site.get("l")))
+    if n < 20:
+        raise AnalysisBroken("%s: only %d guarded diagnostics found in TypeChecker's visit functions" % (rid, n))
+    chk.analysed[rid] = {"guarded_diagnostics": n}
